@@ -505,6 +505,7 @@ def instances(tier):
         add("iv", ["s", "W", "B"], ONE, 200)
         add("iv", ["s", "B", "W"], ONE, 200)
         add("iv", ["WF", "s", "WF"], ONE, 100)         # the object moved before anybody subscribed
+        add("iv", ["s", "W", "s", "W"], ONE, 250)       # drift below the increment, renewal (reports the value), next step
         for kind in ("av", "pc", "bv", "msv"):
             add(kind, ["s", "WF", "WF"], ONE, 100)
             add(kind, ["s", "B"], ONE, 100)
@@ -515,6 +516,7 @@ def instances(tier):
         # two stations
         add("bv", ["s", "S", "CAW"], TWO, 250)
         add("bv", ["s", "S"], TWO, 100, wire=True)
+        add("bv", ["S", "s", "W"], TWO, 250)             # a timed subscription BEFORE an indefinite one, then a change
         # SubscribeCOV without the optional lifetime
         add("iv", ["S", "S"], ONE, 150, absent=True)
         return out
@@ -543,6 +545,8 @@ def instances(tier):
     add("bv", ["S", "S", "A"], TWO, 1200, wire=True)
     add("iv", ["s", "W", "s", "W"], TWO, 600)            # whose "last reported value"?
     add("iv", ["s", "s", "W", "W"], TWO, 600)
+    add("bv", ["S", "s", "W", "AW"], TWO, 1200)
+    add("iv", ["S", "S", "W", "W"], TWO, 1800)
     # three stations; one station with two processes; both
     add("bv", ["s", "s", "S", "C"], THREE, 1200)
     add("bv", ["s", "S", "CAW"], [[0, 7], [0, 8]], 600)
